@@ -24,7 +24,9 @@ import (
 
 const maxN = 4
 
-var modVariants = []string{"map", "noexport", "lit", "counter", "fcall", "fnocall"}
+// "late": the export comes first and the module's imports stand after it (dead at run time, yet compiled:
+// they are edges of the import graph like any other)
+var modVariants = []string{"map", "noexport", "lit", "counter", "fcall", "fnocall", "late"}
 var mainVariants = []string{"top", "fcall", "fnocall"}
 
 type graph struct {
@@ -289,6 +291,8 @@ func moduleSource(i int, ts []int, variant string, nm namer) string {
 		return mark + top + "unused := " + list + "\n"
 	case "lit":
 		return mark + top + "export " + strconv.Quote(name) + "\n"
+	case "late":
+		return mark + "export " + strconv.Quote(name) + "\n" + top
 	case "counter":
 		return mark + "c := 0\n" + top + "export {name: " + strconv.Quote(name) + ", deps: " + list + ", inc: func() { c += 1; return c }}\n"
 	case "fcall":
@@ -331,7 +335,7 @@ func refModuleValue(g graph, desc bool, vars []string, i int, nm namer) string {
 		return "immap{\"deps\":" + deps() + ",\"name\":string:" + name + "}"
 	case "noexport":
 		return "undefined"
-	case "lit":
+	case "lit", "late":
 		return "string:" + name
 	case "counter":
 		return "immap{\"deps\":" + deps() + ",\"inc\":func/compiled,\"name\":string:" + name + "}"
